@@ -13,7 +13,7 @@ import tempfile
 
 from harness.core import CaseResult, hit, rng_for
 
-RULE = ('operation histories (write, set_timestamp, increment_attempts, set_recipients_delivered, remove) over 1..4 messages; '
+RULE = ('operation histories (write, set_timestamp, increment_attempts, set_recipients_delivered (index lists in any order), remove) over 1..4 messages; at every crash snapshot also a real Queue restarted on the directories (load, flush): every recovered message handed to the relay once, with the stored recipients and attempt counter; '
         'after every file-system effect (temp-file creation, each chunk written with an 80-byte chunk size, rename, unlink) of '
         'every operation the directories are copied and reopened by a fresh DiskStorage; some histories run two operations on '
         'different messages concurrently. distinct = distinct (history, concurrency); evaluations count crash snapshots reopened; '
@@ -163,7 +163,7 @@ def make_env(k, nr):
     return env
 
 
-def reopen(files, default_tmp=False):
+def reopen(files, default_tmp=False, with_queue=False):
     """A fresh DiskStorage over a copy of the snapshot: what load()/get() give. Returns (listing, problems)."""
     from slimta.diskstorage import DiskStorage
     root = tempfile.mkdtemp(prefix='verif_c04r_')
@@ -191,6 +191,41 @@ def reopen(files, default_tmp=False):
             body_ok = env.flatten()[1] == b'body %d \xff\r\n' % k
             out[sid] = {'e': k, 'ts': int(ts), 'att': att, 'deliv': list(meta.get('delivered_indexes', [])),
                         'rcpts': [int(r.split('.')[1].split('@')[0]) for r in env.recipients], 'body_ok': body_ok}
+        # ---- the restart (C04 o C12 / C01, `restarted_queue_schedules_acknowledged`, `restarted_queue_continues_the_count`): a real
+        # Queue over a second fresh DiskStorage on the same directories loads its timetable and is flushed; every recovered message must be
+        # handed to the relay exactly once, with the recipients and the attempt counter the storage shows
+        if with_queue and not problems:
+            import gevent
+            from gevent.event import Event
+            from slimta.queue import Queue
+            from slimta.relay import Relay
+            try:
+                gevent.get_hub().exception_stream = None
+            except Exception:
+                pass
+            never = Event()
+            handed = []
+
+            class Recorder(Relay):
+                def attempt(self, envelope, attempts):
+                    handed.append((int(envelope.sender[1:].split('@')[0]), [int(r.split('.')[1].split('@')[0]) for r in envelope.recipients], attempts))
+                    never.wait()
+            st2 = DiskStorage(os.path.join(root, 'env'), os.path.join(root, 'meta'), None if default_tmp else os.path.join(root, 'tmp'))
+            q = Queue(st2, Recorder())
+            try:
+                q._load_all()
+                q.flush()
+                for _ in range(1500):          # (ends as soon as everything is handed over; the full 3 s only when something is missing)
+                    if len(handed) >= len(out):
+                        break
+                    gevent.sleep(0.002)
+                gevent.sleep(0.004)
+            except Exception as e:
+                problems.append('restarted queue raised %r' % e)
+            want = sorted((v['e'], v['rcpts'], v['att']) for v in out.values())
+            if sorted(handed) != want:
+                problems.append('restarted queue handed %r to the relay, the storage shows %r' % (sorted(handed), want))
+            never.set()
         return out, problems
     finally:
         shutil.rmtree(root, ignore_errors=True)
@@ -490,7 +525,7 @@ def run_case(case, model):
         after = copy.deepcopy(state)
         for prog, files in g['snaps']:
             evaluated += 1
-            got, problems = reopen(files, case.get('default_tmp', False))
+            got, problems = reopen(files, case.get('default_tmp', False), with_queue=True)
             gotk = {rev.get(sid, sid): v for sid, v in got.items()}
             # correspondence: per in-progress op, recover(id) of the model at this prefix
             for k in g['grp']:
@@ -506,7 +541,11 @@ def run_case(case, model):
                         mismatch = {'op': 'disk trace', 'in_progress': ops[k], 'effects_done': n_eff, 'impl': g_s, 'model': w}
             # monitor
             for p in problems:
-                hits.append(hit('c04.recovery-raises', 'reopening the crash snapshot failed', observed=p))
+                if p.startswith('restarted queue'):
+                    hits.append(hit('c04.restarted-queue-differs-from-storage', 'a Queue started on the directories after the crash does not hand every recovered '
+                                    'message to the relay exactly once with the recipients and attempt counter the storage shows', observed=p))
+                else:
+                    hits.append(hit('c04.recovery-raises', 'reopening the crash snapshot failed', observed=p))
             in_progress_ids = {ops[k][1] for k in g['grp']}
             for k, b in before.items():
                 removing = any(ops[x][0] == 'r' and ops[x][1] == k for x in g['grp'])
